@@ -8,6 +8,8 @@
 (*   NoReply     the call times out / a plaintext Report is accepted: the  *)
 (*               cipher is not touched                                     *)
 (*   SetKeys     a new key installation: counter re-seeded, new epoch      *)
+(*   SetKeysRefused  set_keys() with unusable key material raises: the     *)
+(*               installation in force (key, counter, buffer) is untouched *)
 (* The counter is modelled modulo M (the real width is 2^32 / 2^64).       *)
 (* DEV_DesNoReset reproduces the pinned DES encrypt(), which serialises    *)
 (* into the buffer without resetting it first.                             *)
@@ -19,59 +21,71 @@ CONSTANTS Cipher,           \* "des" | "aes"
           PduLens,          \* possible scoped-PDU lengths
           MaxBuf,           \* capacity of the private buffer
           MaxSteps,
-          DEV_DesNoReset
+          DEV_DesNoReset,
+          DEV_PadOnce       \* deviation: the padding block is written at key installation only, not per message
 
 Block == IF Cipher = "des" THEN 8 ELSE 16
 PadTo(n) == IF (n % Block) = 0 THEN n ELSE (n + Block) - (n % Block)
 
-VARIABLES salt, epoch, used, bufLen, lastPduLen, emitted, steps, hist
-vars == <<salt, epoch, used, bufLen, lastPduLen, emitted, steps, hist>>
-View == <<salt, epoch, used, bufLen, lastPduLen, emitted, steps>>
+VARIABLES salt, epoch, used, bufLen, lastPduLen, emitted, steps, hist,
+          dirty,     \* the private buffer has been used (encrypt in place / decrypt) since the padding block was last written
+          nbad       \* refused installations so far (bounded: at most one per history)
+vars == <<salt, epoch, used, bufLen, lastPduLen, emitted, steps, hist, dirty, nbad>>
+View == <<salt, epoch, used, bufLen, lastPduLen, emitted, steps, dirty, nbad>>
 
 Init == /\ salt \in 0..(M - 1) /\ epoch = 0 /\ used = {} /\ bufLen = 0
-        /\ lastPduLen = 0 /\ emitted = [ok |-> TRUE, len |-> 0, salt |-> 0, fresh |-> TRUE]
-        /\ steps = 0 /\ hist = <<>>
+        /\ lastPduLen = 0 /\ emitted = [ok |-> TRUE, len |-> 0, salt |-> 0, fresh |-> TRUE, padFresh |-> TRUE]
+        /\ steps = 0 /\ hist = <<>> /\ dirty = FALSE /\ nbad = 0
 
 Encrypt(n) ==
   /\ steps < MaxSteps
   /\ LET base == IF DEV_DesNoReset /\ Cipher = "des" THEN bufLen ELSE 0
          total == base + Block + n IN
      IF total > MaxBuf
-       THEN /\ emitted' = [ok |-> FALSE, len |-> 0, salt |-> salt, fresh |-> TRUE]       \* OutOfBuffer: nothing sent
+       THEN /\ emitted' = [ok |-> FALSE, len |-> 0, salt |-> salt, fresh |-> TRUE, padFresh |-> TRUE]       \* OutOfBuffer: nothing sent
             /\ bufLen' = base + Block                                                      \* padding was pushed before the failure
             /\ UNCHANGED used
-       ELSE /\ emitted' = [ok |-> TRUE, len |-> PadTo(total - Block), salt |-> salt, fresh |-> <<epoch, salt>> \notin used]
+       ELSE /\ emitted' = [ok |-> TRUE, len |-> PadTo(total - Block), salt |-> salt, fresh |-> <<epoch, salt>> \notin used,
+                            padFresh |-> ~(DEV_PadOnce /\ dirty)]                    \* padding pushed for this message (des.rs / aes128.rs encrypt())
             /\ bufLen' = total
             /\ used' = used \cup {<<epoch, salt>>}
   /\ salt' = (salt + 1) % M                                    \* +1 per encrypt (des.rs:61, aes128.rs:57)
-  /\ lastPduLen' = n /\ steps' = steps + 1 /\ UNCHANGED epoch
+  /\ lastPduLen' = n /\ steps' = steps + 1 /\ UNCHANGED <<epoch, nbad>>
+  /\ dirty' = TRUE                                             \* encrypted in place
   /\ hist' = Append(hist, [a |-> "send", n |-> n])
 
 Decrypt ==          \* des.rs:106 / aes128.rs:93: buf.reset(); buf.skip(len)
   /\ steps < MaxSteps
-  /\ bufLen' = 0 /\ steps' = steps + 1
-  /\ UNCHANGED <<salt, epoch, used, lastPduLen, emitted>>
+  /\ bufLen' = 0 /\ steps' = steps + 1 /\ dirty' = TRUE
+  /\ UNCHANGED <<salt, epoch, used, lastPduLen, emitted, nbad>>
   /\ hist' = Append(hist, [a |-> "reply-enc"])
 
 NoReply(kind) ==
   /\ steps < MaxSteps /\ steps' = steps + 1
-  /\ UNCHANGED <<salt, epoch, used, bufLen, lastPduLen, emitted>>
+  /\ UNCHANGED <<salt, epoch, used, bufLen, lastPduLen, emitted, dirty, nbad>>
   /\ hist' = Append(hist, [a |-> kind])
 
 SetKeys ==
   /\ steps < MaxSteps /\ steps' = steps + 1
-  /\ epoch' = epoch + 1 /\ salt' \in 0..(M - 1) /\ bufLen' = 0
-  /\ UNCHANGED <<used, lastPduLen, emitted>>
+  /\ epoch' = epoch + 1 /\ salt' \in 0..(M - 1) /\ bufLen' = 0 /\ dirty' = FALSE
+  /\ UNCHANGED <<used, lastPduLen, emitted, nbad>>
   /\ hist' = Append(hist, [a |-> "set-keys"])
 
+SetKeysRefused ==      \* unusable key material: ValueError, and the installation in force stays exactly as it was
+  /\ steps < MaxSteps /\ nbad < 1 /\ steps' = steps + 1 /\ nbad' = nbad + 1
+  /\ UNCHANGED <<salt, epoch, used, bufLen, lastPduLen, emitted, dirty>>
+  /\ hist' = Append(hist, [a |-> "set-keys-bad"])
+
 Next == \/ \E n \in PduLens : Encrypt(n)
-        \/ Decrypt \/ NoReply("timeout") \/ NoReply("reply-plain-report") \/ SetKeys
+        \/ Decrypt \/ NoReply("timeout") \/ NoReply("reply-plain-report") \/ SetKeys \/ SetKeysRefused
 Spec == Init /\ [][Next]_vars
 
 (* C11: msgData is exactly the padded scoped PDU of THIS request, whatever happened before *)
 PayloadIsScopedPdu == emitted.ok => emitted.len = PadTo(lastPduLen)
 (* C14: a salt is never reused within one key installation (as long as the counter has not wrapped) *)
 SaltFresh == (Cardinality({u \in used : u[1] = epoch}) < M) => emitted.fresh
+(* C17: the padding that follows the scoped PDU was written for this message (never stale buffer contents) *)
+PadWrittenForThisMessage == emitted.ok => emitted.padFresh
 (* C17-like: a request that fits is never refused because of earlier traffic *)
 NoSpuriousRefusal == ~emitted.ok => lastPduLen + Block > MaxBuf
 Done == steps = MaxSteps
